@@ -19,7 +19,7 @@ class SiteSpecHooks:
         raise AttributeError(k)
 
     def call(self, eng, st, name, recv, args, kw, node):
-        for site in self.sites:
+        for site in (self.sites if not eng.in_spec() else ()):       # a call written in a specification is not a call site of the code
             f = site['func']
             if not ((not f.startswith('.') and recv is None and name == f) or (f.startswith('.') and recv is not None and name == f[1:])):
                 continue
